@@ -343,6 +343,12 @@ class Check:
         """make the project (incremental), re-check coq/props/<id>.v, collect Print Assumptions."""
         prop_file = prop_file or self.id
         bad = grep_gate()
+        # tables that live as literals in /repo are re-translated on every run (fail-closed)
+        from harness import translate_tables
+        changed, terr = translate_tables.regenerate()
+        self.coverage["tables_regenerated"] = {"changed": changed, "error": terr}
+        if terr:
+            bad.append("translator: " + terr)
         rc, out, dt = coq_make()
         self.coverage["make_s"] = round(dt, 1)
         ok = rc == 0 and not bad
